@@ -16,8 +16,9 @@ THEOREMS = [
     "B2Z.Checks.sortParts_perm", "B2Z.Checks.sortParts_sorted", "B2Z.Checks.C13_partition_overlap_rejected",
     "B2Z.Checks.C13_accept_sound", "B2Z.Checks.C13_same_path_rejected", "B2Z.Checks.C13_name_clash_rejected",
     "B2Z.Checks.C13_clobber_lists", "B2Z.Checks.C13_undeclared_filter_rejected", "B2Z.Checks.C13_file_interleave_counterexample",
+    "B2Z.Checks.C13_gen_overlap_check",
 ]
-GEN_DEPENDS = ["Reserved."]
+GEN_DEPENDS = ["Reserved.", "Checks."]
 ASSUMPTIONS = [
     "each explode partition reports its true first and last record position (C04 refinement, C08 summaries)",
     "zarr refuses to create an array that already exists (duplicate-array detection at encode init)",
